@@ -161,8 +161,15 @@ def build(scn, pool, log):
                 log.append((self.sid, self.target is pool and interval == log.expected_interval))
                 return super().regulate(interval)
 
+        # a slave may come unbound (None), already bound to the switch's target, or bound to a
+        # pool that EQUALS the target without being it (the constructor accepts all three): the
+        # switch makes every one of them act on ITS target
+        twin = EqPool(supply=pool._supply, demand=pool._demand, utilisation=pool._utilisation, allocation=pool._allocation, name="twin")
+        order = sorted(scn["srate"])
+
         def mk(sid):
-            c = LoggingLinear(None, low_utilisation=0.5, high_allocation=0.5, rate=scn["srate"][sid] / 4)
+            bound = [None, pool, twin][(order.index(sid) + len(scn["slaves"])) % 3] if isinstance(pool, EqPool) else None
+            c = LoggingLinear(bound, low_utilisation=0.5, high_allocation=0.5, rate=scn["srate"][sid] / 4)
             c.sid = sid
             return c
         flat = []
@@ -174,6 +181,16 @@ def build(scn, pool, log):
 
 class CallLog(list):
     expected_interval = None
+
+
+class EqPool(RecPool):
+    """pools that compare equal to each other (a pool type with value equality)"""
+
+    def __eq__(self, other):
+        return isinstance(other, EqPool)
+
+    def __hash__(self):
+        return 7
 
 
 def observe(pool):
@@ -194,7 +211,8 @@ def apply_set(pool, attr, v):
 def execute(case):
     """case: {scn, pool:{supply,demand,util,alloc}, ops:[{e:"Step",iv}|{e:"Set",attr,v}]}"""
     scn, p0 = case["scn"], case["pool"]
-    pool = RecPool(supply=p0["supply"] / 16, demand=p0["demand"] / 16, utilisation=p0["util"] / 4, allocation=p0["alloc"] / 4)
+    cls = EqPool if scn["kind"] == "switch" and (len(case["ops"]) + p0["util"]) % 2 else RecPool
+    pool = cls(supply=p0["supply"] / 16, demand=p0["demand"] / 16, utilisation=p0["util"] / 4, allocation=p0["alloc"] / 4)
     log = CallLog()
     events = []
     raised = []
